@@ -106,6 +106,10 @@ func (e *env) verifyDoc(d baseDoc, raw []byte) (bool, string) {
 	return e.apiVerifyVP(raw, nil)
 }
 
+// pairDocs: documents on which the thorough tier applies ALL PAIRS of mutation operators (every single applied to every
+// single mutant): the three JSON-LD credential templates and the one-credential presentation.
+var pairDocs = map[string]bool{"ldp-vc/org": true, "ldp-vc/ura": true, "ldp-vc/authz": true, "ldp-vp/1-ldp-vc": true}
+
 var idxRe = regexp.MustCompile(`\[\d+\]`)
 
 // location is the structural class of a mutated path: indices removed, at most the two leading members
@@ -210,6 +214,7 @@ func TestVerifC01(t *testing.T) {
 		doc, _ := enum.Decode(d.Raw)
 		singles := enum.Singles(doc, enum.Options{Hostile: r.Thorough(), NoBigString: true})
 		r.Bound("singles:"+d.Name, len(singles))
+		pairDoc := r.Thorough() && pairDocs[d.Name]
 		judge := func(m enum.Mutant, m2 *enum.Mutant) {
 			b := m.Bytes()
 			cs := caseC01{Clause: "tamper", Doc: d.Name, Op: m.Op, Path: m.Path}
@@ -265,7 +270,7 @@ func TestVerifC01(t *testing.T) {
 					judge(m, nil)
 					continue
 				}
-			} else if !r.Mine(idx) && !(r.Thorough() && d.Name == "ldp-vc/org") {
+			} else if !r.Mine(idx) && !pairDoc {
 				continue
 			}
 			if r.Expired() {
@@ -275,7 +280,7 @@ func TestVerifC01(t *testing.T) {
 				judge(m, nil)
 			}
 			// pairs (thorough): every single applied to every single mutant of the smallest document
-			if (r.Thorough() && d.Name == "ldp-vc/org") || (replay && rc.Op2 != "") {
+			if pairDoc || (replay && rc.Op2 != "") {
 				for j, m2 := range enum.Singles(m.Doc, enum.Options{NoBigString: true}) {
 					if replay {
 						if m2.Op == rc.Op2 && m2.Path == rc.Path2 {
